@@ -154,14 +154,14 @@ def run_harness(target_dir, fs, harness, timeout, extra_args=None, extra_env=Non
 SECTION_RE = re.compile(r"^Checking harness (\S+?)\.\.\.\s*$", re.M)
 
 
-def run_group(base_dir, gdir, fs, jobs):
+def run_group(base_dir, gdir, fs, jobs, extra=()):
     """jobs: list of dict(harness, timeout). One cargo-kani invocation; returns {harness: result}."""
     if os.path.isdir(gdir):
         shutil.rmtree(gdir, ignore_errors=True)
     subprocess.run(["cp", "-a", base_dir, gdir], check=True)
     env = dict(ENV)
     per = max(j["timeout"] for j in jobs)
-    cmd = _base_cmd(gdir, fs) + ["--exact", "--harness-timeout", "%ds" % per]
+    cmd = _base_cmd(gdir, fs) + ["--exact", "--harness-timeout", "%ds" % per] + list(extra)
     for j in jobs:
         cmd += ["--harness", j["harness"]]
     cmd += CBMC_ARGS
@@ -208,13 +208,16 @@ def run_group(base_dir, gdir, fs, jobs):
 def run_many(base_dirs, jobs, nproc=16, scratch=None):
     """jobs: list of dict(fs, harness, timeout, weight). base_dirs: fs -> built target dir.
     Returns list of results (same order)."""
+    # group key: (feature set, reach-checks on/off).  Reachability checks (Kani's UNREACHABLE status) cost
+    # 5-10x on the big concrete L2 instances (one SAT call + trace per reachable assertion), so those run
+    # with --no-assertion-reach-checks and carry an explicit kani::cover! instead.
     by_fs = {}
     for i, j in enumerate(jobs):
-        by_fs.setdefault(j["fs"], []).append((i, j))
+        by_fs.setdefault((j["fs"], bool(j.get("noreach"))), []).append((i, j))
     # number of groups per fs proportional to its weight
     tot_w = sum(j.get("weight", 10) for j in jobs) or 1
     groups = []
-    for fs, items in by_fs.items():
+    for (fs, noreach), items in by_fs.items():
         w = sum(j.get("weight", 10) for _, j in items)
         ng = max(1, min(len(items), int(round(nproc * w / tot_w)) or 1))
         bins = [[] for _ in range(ng)]
@@ -225,13 +228,13 @@ def run_many(base_dirs, jobs, nproc=16, scratch=None):
             load[k] += j.get("weight", 10)
         for b in bins:
             if b:
-                groups.append((fs, b))
+                groups.append((fs, noreach, b))
     results = [None] * len(jobs)
     with cf.ThreadPoolExecutor(max_workers=nproc) as ex:
         futs = {}
-        for gi, (fs, b) in enumerate(groups):
+        for gi, (fs, noreach, b) in enumerate(groups):
             gdir = os.path.join(scratch, "g%d-%s" % (gi, fs))
-            futs[ex.submit(run_group, base_dirs[fs], gdir, fs, [j for _, j in b])] = (fs, b)
+            futs[ex.submit(run_group, base_dirs[fs], gdir, fs, [j for _, j in b], ["--no-assertion-reach-checks"] if noreach else [])] = (fs, b)
         for f in cf.as_completed(futs):
             fs, b = futs[f]
             res, wall = f.result()
